@@ -101,6 +101,16 @@ func famC13(g *Gen, o *Out, n int, thorough bool) {
 		if g.pick(4) == 0 {
 			ro.zeroEOF = true
 		}
+		// the two size limits are separate: a section limit some sections exceed under a roomy header limit,
+		// and a header limit at or below the header's length under a roomy section limit
+		switch {
+		case c%4 == 1:
+			ro.ms = uint64(40 + g.pick(120))
+		case c%8 == 6:
+			ro.mh = uint64(20 + g.pick(60))
+		case c%8 == 2:
+			ro.ms, ro.mh = uint64(40+g.pick(120)), uint64(40+g.pick(120))
+		}
 		emit := func(in []byte, tag string) {
 			refSections(in, o.Hash)
 			for _, full := range []bool{true, false} {
